@@ -47,11 +47,54 @@ def _h_min(ex, call):
     return ITE(sp.Lt(b, a), b, a)
 
 
-def setup(fn):
+class FMod(sp.Function):
+    """math.fmod(x, 2 pi) / numpy.fmod: the remainder with the sign of the DIVIDEND (C semantics), in (-2 pi, 2 pi)"""
+    nargs = 1
+
+    def _eval_is_extended_real(self):
+        return True
+
+
+def _h_mod(ex, call):
+    """numpy.mod / numpy.remainder(x, m): the same function as the operator `x % m` (result has the sign of m)"""
+    if len(call.args) != 2 or call.keywords:
+        raise Undecided(f"call `{src(call)[:60]}`")
+    return ex.binop(ast.Mod(), ex.ev(call.args[0]), ex.ev(call.args[1]), call)
+
+
+def _h_fmod(ex, call):
+    if len(call.args) != 2 or call.keywords:
+        raise Undecided(f"call `{src(call)[:60]}`")
+    a, b = ex.ev(call.args[0]), ex.ev(call.args[1])
+    if isinstance(a, sp.Basic) and isinstance(b, sp.Basic) and sp.simplify(b - 2 * PI) == 0:
+        return FMod(a)
+    raise Undecided(f"call `{src(call)[:60]}`")
+
+
+FMOD = ("the angle is reduced with fmod, whose result has the sign of the dividend: a negative angle (a characteristic that "
+        "crosses theta = 0 backwards) stays in (-2 pi, 0) instead of being brought into [0, 2 pi), and the splines of phi and f "
+        "are evaluated outside their domain; `x % (2 pi)` and numpy.mod give the result the sign of the divisor")
+
+
+def setup(fn, mod=None, exclude=()):
     args = make_args(fn, funcs={"eval_spline_2d_cross": h_cross, "eval_spline_2d_scalar": h_scalar2})
     calls = dict(SPLINE_HANDLERS)
-    calls.update({"max": _h_max, "min": _h_min})
-    ex = SymExec(fn, args, calls=calls)
+    calls.update({"max": _h_max, "min": _h_min, "maximum": _h_max, "minimum": _h_min, "fmax": _h_max, "fmin": _h_min,
+                  "mod": _h_mod, "remainder": _h_mod, "fmod": _h_fmod})
+    env = dict(args)
+    for q_ in exclude:
+        # composed with the call site: a scalar parameter whose actual is an expression of the quantities of step() has that
+        # value in the kernel (the specification keeps the plain symbols, which denote the quantities of step())
+        for sym_, val_ in _SCALAR_SUBST.get(q_, {}).items():
+            if sym_.name in env and isinstance(env[sym_.name], sp.Basic):
+                env[sym_.name] = val_
+    ex = SymExec(fn, env, calls=calls)
+    if mod is not None:
+        # helper functions of the kernel module (a scalar helper with several returns, a phase moved to a function of
+        # its own) are analysed together with their caller: the call is replaced by the helper's body with the arguments
+        # substituted (the engine's own inlining, bounded in depth)
+        ex.module_funcs = {q: n for q, n in mod.functions().items()
+                           if "." not in q and q not in calls and n is not fn and q not in exclude}
     return ex, args
 
 
@@ -258,20 +301,104 @@ def unify_shapes(e, args):
 _SHAPE_SYM = re.compile(r"^n([01])_(\w+)$")
 
 
+# scalar parameters of a kernel whose actual at the call site in PoloidalAdvection.step is not the quantity of that name
+# but an expression of the quantities of step() (a factor applied by the caller instead of the callee): {kernel: {symbol of
+# the parameter: expression}}.  The extracted formulas are functions of the parameters; composed with the call site they are
+# functions of the quantities the specification is written in.
+_SCALAR_SUBST: dict = {}
+
+
+def kernel_scalar_actuals(chk):
+    """fills _SCALAR_SUBST from the kernel calls of PoloidalAdvection.step (see selected_kernel_calls / resolved_call).
+    Only arithmetic of step()'s own parameters, attributes of the constants object and numbers is followed; any other
+    actual leaves the parameter as it is (the call-site rules E2-* then decide what it denotes)."""
+    _SCALAR_SUBST.clear()
+    try:
+        mod, kmod = chk.mod(U.ADV), chk.mod(U.ADVK)
+        cls = mod.cls("PoloidalAdvection")
+        fn = chk.func(U.ADV, "PoloidalAdvection.step")
+    except Exception:
+        return
+    prov = ctor_provenance(cls)
+    const_recv = next((a_ for a_, p_ in prov.items() if p_ == "constants"), "self._constants")
+    aliases, kwtables = local_aliases(fn), local_kwtables(fn)
+    sparams = {a.arg for a in fn.args.args[1:]}
+    knames = ("poloidal_advection_step_expl", "poloidal_advection_step_impl")
+    try:
+        sites = selected_kernel_calls(fn, knames)
+    except Exception:
+        return
+    for kname, general in zip(knames, (EXPL, IMPL)):
+        calls = [(c, ab) for kn_, c, ab in sites if kn_ == kname]
+        if len(calls) != 1 or not kmod.has(kname) or not kmod.has(general):
+            continue
+        c0, arm = calls[0]
+        al2, kt2 = dict(aliases), dict(kwtables)
+        for nm_, v_ in arm.items():
+            if isinstance(v_, ast.Dict) or (isinstance(v_, ast.Call) and src(v_.func) == "dict"):
+                items = _kw_items(v_, kt2)
+                if items is not None and _only_unpacked(fn, nm_):
+                    kt2[nm_] = items
+            elif _pure_path(v_):
+                al2[nm_] = v_
+        c = resolved_call(c0, al2, kt2)
+        formals = [a.arg for a in kmod.func(kname).args.args]
+        b = agree.bind_call(c, formals)
+        if b is None:
+            continue
+        gformals = {a.arg for a in kmod.func(general).args.args}
+
+        def ev(e):
+            if isinstance(e, ast.Constant) and isinstance(e.value, (int, float)) and not isinstance(e.value, bool):
+                return Rational(repr(e.value)) if isinstance(e.value, float) else Integer(e.value)
+            if isinstance(e, ast.Name) and e.id in sparams:
+                return Symbol(e.id, real=True)
+            if isinstance(e, ast.Call) and src(e.func) == "float" and len(e.args) == 1 and not e.keywords:
+                return ev(e.args[0])
+            if isinstance(e, ast.Attribute) and src(e.value) == const_recv:
+                hit = [g for g in gformals if g.lower() == e.attr.lower()]
+                if len(hit) == 1:
+                    return Symbol(hit[0], real=True)
+            if isinstance(e, ast.Attribute) and src(e) in prov and prov[src(e)] in CTOR_PARAM_ROLES:
+                return Symbol(CTOR_PARAM_ROLES[prov[src(e)]], real=True)
+            if isinstance(e, ast.BinOp) and isinstance(e.op, (ast.Add, ast.Sub, ast.Mult, ast.Div)):
+                a_, b_ = ev(e.left), ev(e.right)
+                return {ast.Add: a_ + b_, ast.Sub: a_ - b_, ast.Mult: a_ * b_, ast.Div: a_ / b_}[type(e.op)]
+            if isinstance(e, ast.UnaryOp) and isinstance(e.op, ast.USub):
+                return -ev(e.operand)
+            raise Undecided(src(e))
+        sub = {}
+        for f_ in ("dt", "B0", "v"):
+            if f_ in b and f_ in gformals:
+                try:
+                    val = ev(b[f_])
+                except Undecided:
+                    continue
+                if val != Symbol(f_, real=True) and any(isinstance(x, ast.BinOp) for x in ast.walk(b[f_])):
+                    sub[Symbol(f_, real=True)] = val
+        if sub:
+            _SCALAR_SUBST[general] = sub
+
+
 def compare(chk, rule, node, what, code, spec, func, args=None, wrong=(), stale=(), one_shift=None):
     """decisive verdict of the formula engine; anything that prevents the comparison is UNDECIDED.
     `wrong`: (diagnosis, formula) pairs of known wrong variants of the specification: when the code differs from the
     specification and equals one of them the diagnosis names the defect"""
+    composed = ""
     try:
         if args is not None:
             code = unify_shapes(code, args)
+        sub_ = _SCALAR_SUBST.get(func)
+        if sub_:
+            composed = (" (kernel composed with its call site in PoloidalAdvection.step, which passes " +
+                        ", ".join(f"{k_} <- {v_}" for k_, v_ in sub_.items()) + ")")
         ok, wit = layered_equal(code, spec)
     except Undecided as e:
         chk.ob(rule, node, what, None, f"comparison not decidable: {e}", file=U.ADVK, func=func)
         return None
-    why = "extracted formula equals the specification"
+    why = "extracted formula equals the specification" + composed
     if not ok:
-        why = f"extracted formula differs from the specification: {wit}"
+        why = f"extracted formula{composed} differs from the specification: {wit}"
         left_over = sorted({str(a_.func) for a_ in code.atoms(AppliedUndef) if str(a_.func) in stale}) \
             if isinstance(code, sp.Basic) else []
         if left_over:
@@ -289,6 +416,8 @@ def compare(chk, rule, node, what, code, spec, func, args=None, wrong=(), stale=
             if isinstance(spec, Wrap) and isinstance(code, Wrap):   # the rule reduces the value it reads back once more
                 first.append((ONE_SHIFT, Wrap(unwrap(spec))))
             wrong = first + wrong
+        if isinstance(code, sp.Basic) and code.has(FMod) and isinstance(spec, sp.Basic) and spec.has(Wrap):
+            wrong = [(FMOD, spec.replace(lambda x: isinstance(x, Wrap), lambda x: FMod(x.args[0])))] + wrong
         for label, variant in wrong:
             if variant is None:
                 continue
@@ -309,6 +438,13 @@ def cell(ex, name, idx):
     a = ex.env.get(name)
     if not isinstance(a, Arr):
         raise Undecided(f"array `{name}` is not bound after the symbolic execution")
+    for k_ in a.cells:
+        for c_ in k_:
+            if isinstance(c_, sp.Basic) and c_.free_symbols and not c_.is_Symbol:
+                # written at `i - 1`, `n - i`, ...: the cell of node (i, j) is the one written by ANOTHER iteration, which a
+                # read at [i, j] does not see
+                raise Undecided(f"`{name}` is written at {list(k_)}, an expression of the loop counters: the content of the cell "
+                                "of a generic node is not extracted")
     return a.read(list(idx))
 
 
@@ -357,6 +493,9 @@ def wrong_traces(S, key, x_k=None, clip=False):
         out.append((label, trace_spec(S, x_k=x_k, clip=clip, **kw)[key]))
     out.append(("the step factor is dt*B0 (or dt/2*B0) instead of dt/B0 (dt/(2 B0)): wrong for every B0 != 1",
                 trace_spec(S, x_k=x_k, clip=clip, mf=S["dt"] * S["B0"])[key]))
+    out.append(("the step factor is dt (dt/2) instead of dt/B0 (dt/(2 B0)): the division by B0 is done neither by the kernel "
+                "nor by its call site in PoloidalAdvection.step, wrong for every B0 != 1",
+                trace_spec(S, x_k=x_k, clip=clip, mf=S["dt"])[key]))
     return out
 
 
@@ -377,10 +516,157 @@ def wrong_fills(S, th_foot, r_foot, nul):
     )
 
 
+def _fold_affine(e):
+    """`e` with its integer arithmetic (+, -, unary -, * of names, integer constants and opaque operands) brought to a
+    normal form: `(i + 1) - 1` -> `i`, `n - 1 + 1` -> `n`.  Anything else is returned as it is."""
+    leaves = {}
+
+    def conv(n):
+        if isinstance(n, ast.Constant) and isinstance(n.value, int) and not isinstance(n.value, bool):
+            return Integer(n.value)
+        if isinstance(n, ast.BinOp) and isinstance(n.op, (ast.Add, ast.Sub, ast.Mult)):
+            a, b = conv(n.left), conv(n.right)
+            return a + b if isinstance(n.op, ast.Add) else a - b if isinstance(n.op, ast.Sub) else a * b
+        if isinstance(n, ast.UnaryOp) and isinstance(n.op, ast.USub):
+            return -conv(n.operand)
+        if isinstance(n, (ast.Name, ast.Attribute, ast.Subscript)) and _pure_path(n):
+            t = src(n)
+            if t not in leaves:
+                leaves[t] = (Symbol(f"_leaf{len(leaves)}_", integer=True), n)
+            return leaves[t][0]
+        raise Undecided("not affine")
+    if not isinstance(e, (ast.BinOp, ast.UnaryOp)):
+        return e
+    try:
+        v = sp.expand(conv(e))
+        if not v.is_polynomial(*[x for x, _n in leaves.values()]):
+            return e
+        new = ast.parse(str(v), mode="eval").body
+    except (Undecided, SyntaxError, TypeError):
+        return e
+    back = {str(sym): node for sym, node in leaves.values()}
+
+    class _Back(ast.NodeTransformer):
+        def visit_Name(self, n):
+            from ..core import clone as _clone
+            return _clone(back[n.id]) if n.id in back else n
+    new = _Back().visit(new)
+    if any(isinstance(x, (ast.Pow, ast.Div, ast.FloorDiv)) for x in ast.walk(new)):
+        return e
+    for x in ast.walk(new):
+        ast.copy_location(x, e)
+    return new
+
+
+class _FoldIdx(ast.NodeTransformer):
+    """fold the integer arithmetic of subscripts and range bounds"""
+
+    def visit_Subscript(self, n):
+        self.generic_visit(n)
+        if isinstance(n.slice, ast.Tuple):
+            n.slice.elts = [_fold_affine(x) for x in n.slice.elts]
+        else:
+            n.slice = _fold_affine(n.slice)
+        return n
+
+    def visit_Call(self, n):
+        self.generic_visit(n)
+        if isinstance(n.func, ast.Name) and n.func.id == "range":
+            n.args = [_fold_affine(x) for x in n.args]
+        return n
+
+
+def _zero_based_sweeps(fn, _depth=0):
+    """private copy of `fn` in which every counting loop `for v in range(a, b)` with a constant a != 0 and every
+    descending loop `for v in range(b - 1, a - 1, -1)` over a counter that the body does not assign is written as
+    `for v in range(0, b - a)` / `for v in range(a, b)`, the body reading `v + a` / the same v.  The counting convention
+    of a loop is not part of the specification: what the loop does to the cells it visits is.  (A descending loop visits
+    the same counters; the extraction that follows treats the iterations of a sweep as independent and refuses the
+    sweep - UNDECIDED - when it finds a value carried from one iteration to the next that is not a sum, whichever
+    the direction.)  Returns `fn` itself when there is nothing to rewrite."""
+    from ..core import clone
+
+    def candidates(root):
+        out = []
+        for lp in ast.walk(root):
+            if not (isinstance(lp, ast.For) and isinstance(lp.target, ast.Name) and isinstance(lp.iter, ast.Call)
+                    and isinstance(lp.iter.func, ast.Name) and lp.iter.func.id == "range" and not lp.iter.keywords
+                    and not lp.orelse):
+                continue
+            v = lp.target.id
+            if any(isinstance(n, ast.Name) and n.id == v and isinstance(n.ctx, ast.Store) for st in lp.body for n in ast.walk(st)):
+                continue
+            a = lp.iter.args
+            if len(a) == 2 and isinstance(a[0], ast.Name) and a[0].id in consts:
+                a[0] = lp.iter.args[0] = ast.copy_location(ast.Constant(value=consts[a[0].id]), a[0])
+            if len(a) == 2 and isinstance(a[0], ast.Constant) and isinstance(a[0].value, int) and a[0].value != 0:
+                out.append((lp, "shift"))
+            elif len(a) == 3 and isinstance(_fold_affine(a[2]), ast.UnaryOp) and src(_fold_affine(a[2])) == "-1":
+                out.append((lp, "reverse"))
+            elif len(a) == 3 and isinstance(a[2], ast.Constant) and a[2].value == -1:
+                out.append((lp, "reverse"))
+        return out
+    par = parent(fn)
+    new = clone(fn)          # candidates() writes the value of a named constant lower bound into the range: on the copy only
+    new._parent = par
+    # names bound once, at the top level of the function, to an integer constant
+    nst = {}
+    for n in ast.walk(new):
+        if isinstance(n, ast.Name) and isinstance(n.ctx, ast.Store):
+            nst[n.id] = nst.get(n.id, 0) + 1
+    consts = {st.targets[0].id: st.value.value for st in new.body
+              if isinstance(st, ast.Assign) and len(st.targets) == 1 and isinstance(st.targets[0], ast.Name)
+              and nst.get(st.targets[0].id) == 1 and isinstance(st.value, ast.Constant) and isinstance(st.value.value, int)
+              and not isinstance(st.value.value, bool) and st.targets[0].id not in {a.arg for a in new.args.args}}
+    if not candidates(new):
+        return fn
+    for lp, kind in candidates(new):
+        a = lp.iter.args
+        if kind == "shift":
+            off = a[0].value
+            v = lp.target.id
+
+            class _Sh(ast.NodeTransformer):
+                def visit_Name(self, n):
+                    if n.id == v and isinstance(n.ctx, ast.Load):
+                        return ast.copy_location(ast.BinOp(left=n, op=ast.Add(), right=ast.Constant(value=off)), n)
+                    return n
+            lp.body = [_Sh().visit(st) for st in lp.body]
+            lp.iter.args = [ast.Constant(value=0), ast.BinOp(left=a[1], op=ast.Sub(), right=ast.Constant(value=off))]
+        else:
+            one = ast.Constant(value=1)
+            lp.iter.args = [ast.BinOp(left=a[1], op=ast.Add(), right=one), ast.BinOp(left=a[0], op=ast.Add(), right=one)]
+    new = _FoldIdx().visit(new)
+    ast.fix_missing_locations(new)
+    for n in ast.walk(new):
+        for ch in ast.iter_child_nodes(n):
+            ch._parent = n
+    new._parent = par
+    if hasattr(fn, "_qual"):
+        new._qual = fn._qual
+    # a descending 1-based loop becomes an ascending 1-based loop, then a 0-based one
+    return _zero_based_sweeps(new, _depth + 1) if _depth < 2 else new
+
+
+def _without_continue(chk, fn, modname, qname):
+    """the kernel with the early exits of its sweeps (`if c: ...; continue`) written as if/else (same behaviour: the
+    statements after the conditional move into the arm that falls through), so that a node skipped by an early exit
+    keeps, in the extracted formulas, what the skipped statements would have overwritten; and with its counting loops
+    brought to the 0-based ascending convention (see _zero_based_sweeps)"""
+    from .C05 import structured
+    new, why = structured(fn)
+    if why:
+        chk.ob("F1-extraction", fn, qname, None, f"early exit that cannot be written as if/else: {why}", file=modname, func=qname)
+        return None
+    return _zero_based_sweeps(new)
+
+
 def check_explicit(chk, mod, modname=U.ADVK, qname=EXPL):
-    fn = mod.func(qname)
+    fn = _without_continue(chk, mod.func(qname), modname, qname)
+    if fn is None:
+        return
     chk.functions.add(f"{modname}:{qname}")
-    ex, args = setup(fn)
+    ex, args = setup(fn, mod, (qname,))
     try:
         ex.run()
         S = spec_symbols(args)
@@ -671,8 +957,19 @@ def convergence_test(chk, w, ex, args, modname, qname, do_while=False, counters=
                why or f"the initial measure `{norm0}` is not provably above tol", file=modname, func=qname)
 
 
+def _always_reduced(e):
+    """the value is an angle reduced modulo 2 pi on every path"""
+    if isinstance(e, Wrap):
+        return True
+    if isinstance(e, ITE):
+        return _always_reduced(e.args[1]) and _always_reduced(e.args[2])
+    return False
+
+
 def check_implicit(chk, mod, modname=U.ADVK, qname=IMPL):
-    fn = mod.func(qname)
+    fn = _without_continue(chk, mod.func(qname), modname, qname)
+    if fn is None:
+        return
     chk.functions.add(f"{modname}:{qname}")
     found = iteration_loop(fn)
     if found is None:
@@ -688,7 +985,7 @@ def check_implicit(chk, mod, modname=U.ADVK, qname=IMPL):
     k = fn.body.index(loop_stmt)
     # ---- phase 1: predictor (statements before the while)
     pre = ast.FunctionDef(name="_pre", args=fn.args, body=fn.body[:k], decorator_list=[], lineno=fn.lineno)
-    ex, args = setup(pre)
+    ex, args = setup(pre, mod, (qname,))
     try:
         ex.run()
         S = spec_symbols(args)
@@ -714,18 +1011,25 @@ def check_implicit(chk, mod, modname=U.ADVK, qname=IMPL):
         return
     before = body[:body.index(loops[0])]
     after = body[body.index(loops[-1]) + 1:]
-    ex2, args2 = setup(ast.FunctionDef(name="_it", args=fn.args, body=[], decorator_list=[], lineno=fn.lineno))
-    # state at loop entry: every local as after the predictor phase; the current iterate is generic
-    for nm, val in ex.env.items():
-        if nm not in ("endPts_k1_q", "endPts_k1_r"):
-            ex2.env[nm] = val
-    Q, R = Arr("endPts_k1_q"), Arr("endPts_k1_r")
-    ex2.env["endPts_k1_q"], ex2.env["endPts_k1_r"] = Q, R
     carried = Symbol("norm_carried", real=True)
-    ex2.env["norm"] = carried
+
+    def loop_entry(angle_reduced=False):
+        """state at the start of a pass: every local as after the predictor phase; the current iterate is generic (with
+        `angle_reduced`: a generic angle in [0, 2 pi), see the invariant below); the statements before the sweeps done"""
+        e2, _a2 = setup(ast.FunctionDef(name="_it", args=fn.args, body=[], decorator_list=[], lineno=fn.lineno), mod, (qname,))
+        for nm, val in ex.env.items():
+            if nm not in ("endPts_k1_q", "endPts_k1_r"):
+                e2.env[nm] = val.copy() if isinstance(val, Arr) else val
+        q_, r_ = Arr("endPts_k1_q"), Arr("endPts_k1_r")
+        if angle_reduced:
+            q_.generic = (lambda ix, f_=q_.fn: Wrap(f_(*ix)))
+        e2.env["endPts_k1_q"], e2.env["endPts_k1_r"] = q_, r_
+        e2.env["norm"] = carried
+        e2.block(before)
+        return e2, q_, r_
     # the measure restarts from zero in every pass (it is a maximum: without the reset it could never decrease)
     try:
-        ex2.block(before)
+        ex2, Q, R = loop_entry()
     except Undecided as e:
         chk.ob("F1-extraction", w, qname + " (iteration prologue)", None, f"outside the extractable fragment: {e}",
                file=modname, func=qname)
@@ -752,19 +1056,30 @@ def check_implicit(chk, mod, modname=U.ADVK, qname=IMPL):
         chk.ob("F1-convergence-reset", w, "norm = 0 at the start of each pass", None,
                f"the measure restarts from `{reset}`: not decided", file=modname, func=qname)
     n_in = Symbol("norm_in", real=True)
-    ex2.env["norm"] = n_in
-    ex2.env["i"], ex2.env["j"] = i, j
-    try:
+
+    def one_pass(e2):
+        e2.env["norm"] = n_in
+        e2.env["i"], e2.env["j"] = i, j
         for outer, pre_, inner in passes:
-            ex2.env[outer.target.id] = i
+            e2.env[outer.target.id] = i
             for st in pre_:
-                ex2.stmt(st)
-            ex2.env[inner.target.id] = j
-            ex2.block(inner.body)
-        got2 = {n: cell(ex2, n, [i, j]) for n in ("endPts_k1_q", "endPts_k1_r", "endPts_k2_q", "endPts_k2_r")}
-        got_norm = ex2.env.get("norm")
-        if not isinstance(got_norm, sp.Basic):
+                e2.stmt(st)
+            e2.env[inner.target.id] = j
+            e2.block(inner.body)
+        g2 = {n: cell(e2, n, [i, j]) for n in ("endPts_k1_q", "endPts_k1_r", "endPts_k2_q", "endPts_k2_r")}
+        gn = e2.env.get("norm")
+        if not isinstance(gn, sp.Basic):
             raise Undecided("the measure is not a scalar after the iteration body")
+        return g2, gn
+    try:
+        got2, got_norm = one_pass(ex2)
+        # invariant of the loop: "the angle of the iterate lies in [0, 2 pi)".  It holds at the start of every pass when
+        # the initial iterate is a reduced angle and every pass leaves a reduced angle whatever iterate it starts from
+        # (induction on the passes).  Then the pass may be analysed from a generic REDUCED angle: the reduction may be
+        # done by the producer of the iterate (predictor, end of the pass) instead of at the head of the pass.
+        if _always_reduced(got1["endPts_k1_q"]) and _always_reduced(got2["endPts_k1_q"]):
+            ex2, Q, R = loop_entry(angle_reduced=True)
+            got2, got_norm = one_pass(ex2)
     except Undecided as e:
         chk.ob("F1-extraction", w, qname + " (iteration)", None, f"outside the extractable fragment: {e}", file=modname, func=qname)
         return
@@ -772,9 +1087,16 @@ def check_implicit(chk, mod, modname=U.ADVK, qname=IMPL):
     r_k = R.fn(i, j)
     T = trace_spec(S, x_k=(th_k, r_k), clip=True)
     th_n, r_n = T["th2"], T["r2"]
-    wr_th = wrong_traces(S, "th2", x_k=(th_k, r_k), clip=True)
+    raw_angle = ("the drift at the current iterate is evaluated at the iterate's angle as it is stored, and that angle is not "
+                 "reduced modulo 2 pi on every pass (" +
+                 ("the initial iterate is not reduced" if not _always_reduced(got1["endPts_k1_q"]) else
+                  "the previous pass does not leave a reduced angle") +
+                 " and the pass does not reduce it before use): the potential spline is evaluated outside [0, 2 pi)")
+    T_raw = trace_spec(S, x_k=(Q.fn(i, j), r_k), clip=True)
+    wr_th = wrong_traces(S, "th2", x_k=(th_k, r_k), clip=True) + [(raw_angle, T_raw["th2"])]
     wr_r = wrong_traces(S, "r2", x_k=(th_k, r_k), clip=True) + [
-        ("the new radius is not clipped to the radial domain [r_0, r_max]", trace_spec(S, x_k=(th_k, r_k), clip=False)["r2"])]
+        ("the new radius is not clipped to the radial domain [r_0, r_max]", trace_spec(S, x_k=(th_k, r_k), clip=False)["r2"]),
+        (raw_angle, T_raw["r2"])]
     compare(chk, "F1-fixed-point-map", w, "theta_{k+1} = W(theta_i - 1/2 (F_th(x_0) + F_th(x_k)) dt/B0)",
             got2["endPts_k1_q"], th_n, qname, args, wr_th, STALE_IT)
     compare(chk, "F1-fixed-point-map", w, "r_{k+1} = clip(r_j + 1/2 (F_r(x_0) + F_r(x_k)) dt/B0)",
@@ -792,7 +1114,39 @@ def check_implicit(chk, mod, modname=U.ADVK, qname=IMPL):
     dr = sp.Abs(r_n - r_k)
     m2 = ITE(sp.Gt(dr, m1), dr, m1)
     m_noper = ITE(sp.Gt(dr, ITE(sp.Gt(d0, n_in), d0, n_in)), dr, ITE(sp.Gt(d0, n_in), d0, n_in))
-    compare(chk, "F1-convergence-measure", w, "norm = max(norm, periodic |dtheta|, |dr|)", got_norm, m2, qname, args, [
+
+    def measure_on(th_x, r_x):
+        dx0 = sp.Abs(th_x - th_k)
+        dxt = ITE(sp.Gt(dx0, PI), 2 * PI - dx0, dx0)
+        mx1 = ITE(sp.Gt(dxt, n_in), dxt, n_in)
+        dxr = sp.Abs(r_x - r_k)
+        return ITE(sp.Gt(dxr, mx1), dxr, mx1)
+    # the stopping test relies on: "the iterate no longer moves" <=> "the measure is below tol".  The iterate is what the
+    # next pass starts from (endPts_k1 after the pass).  A measure taken on another stored copy of the point (endPts_k2)
+    # is the same thing only while the two copies are equal.
+    other = []
+    try:
+        th_2, r_2 = unify_shapes(got2["endPts_k2_q"], args), unify_shapes(got2["endPts_k2_r"], args)
+        same_q = layered_equal(Wrap(th_2), Wrap(th_n))[0]
+        same_r = layered_equal(r_2, r_n)[0]
+        if not (same_q and same_r):
+            which = [n_ for n_, s_ in (("endPts_k2_q", same_q), ("endPts_k2_r", same_r)) if not s_]
+            clipped = (not same_r) and layered_equal(
+                r_n, ITE(sp.Lt(r_2, S["r0"]), S["r0"], ITE(sp.Gt(r_2, S["rmax"]), S["rmax"], r_2)))[0]
+            other.append((
+                f"the measure is the distance between the old iterate and the point kept in {' / '.join(which)}, which is NOT the "
+                "new iterate stored in endPts_k1 from which the next pass starts" +
+                (" (endPts_k1_r is that point clipped to [r_0, r_max], endPts_k2_r is not clipped)" if clipped else "") +
+                ": when the iterate has stopped moving the measure is still the distance between the two copies" +
+                (", i.e. the distance of the unclipped foot from the radial boundary, in every pass: as soon as one "
+                 "characteristic ends outside the radial domain by more than tol the measure never falls below tol and the "
+                 "iteration does not terminate, however contractive the map is (a non-termination of its own, not the missing "
+                 "bound on the number of passes)" if clipped else
+                 ": the loop cannot stop at convergence (it does not terminate where the two copies differ by more than tol)"),
+                measure_on(th_2, r_2)))
+    except Undecided:
+        pass
+    compare(chk, "F1-convergence-measure", w, "norm = max(norm, periodic |dtheta|, |dr|)", got_norm, m2, qname, args, other + [
         ("the measure is identically its incoming value: the change of the iterate does not enter it (are the new and "
          "the old iterate the same cells?), so the loop stops after its first pass", n_in),
         ("the angular change is not measured as a periodic distance: an iterate that crosses theta = 0 looks 2 pi away "
@@ -802,11 +1156,16 @@ def check_implicit(chk, mod, modname=U.ADVK, qname=IMPL):
          ITE(sp.Gt(dr, n_in), dr, n_in))])
     # ---- phase 3: fill after convergence (statements after the while), from generic converged foot
     post = ast.FunctionDef(name="_post", args=fn.args, body=fn.body[k + 1:], decorator_list=[], lineno=fn.lineno)
-    ex3, args3 = setup(post)
+    ex3, args3 = setup(post, mod, (qname,))
     for nm, val in ex.env.items():
         if nm not in args3 and isinstance(val, sp.Basic):
             ex3.env[nm] = val           # scalar locals of the prologue (rMax, nPts_r, multFactor, ...)
     ex3.env.setdefault("pi", PI)
+    # the loop body runs at least once (rule F1-convergence-test) and every pass leaves a reduced angle in endPts_k2_q: the
+    # foot the fill phase reads is a generic reduced angle (the phase need not reduce it again)
+    if _always_reduced(got2["endPts_k2_q"]) and isinstance(ex3.env.get("endPts_k2_q"), Arr):
+        a_ = ex3.env["endPts_k2_q"]
+        a_.generic = (lambda ix, f_=a_.fn: Wrap(f_(*ix)))
     try:
         ex3.run()
         got_f = cell(ex3, "f", [i, j])
@@ -940,6 +1299,23 @@ def local_aliases(fn):
             if any(stores.get(r, 0) > 1 for r in roots):
                 continue
             out[nm] = st.value
+        elif isinstance(st, ast.Assign) and len(st.targets) == 1 and isinstance(st.targets[0], (ast.Tuple, ast.List)) \
+                and all(isinstance(t, ast.Name) for t in st.targets[0].elts) and _pure_path(st.value):
+            # `a, b = X` with X a pure path (not a literal tuple): a is X[0], b is X[1] (unpacking a sequence)
+            names = [t.id for t in st.targets[0].elts]
+            roots = {x.id for x in ast.walk(st.value) if isinstance(x, ast.Name)}
+            if any(stores.get(r, 0) > 1 for r in roots) or any(n_ in params or stores.get(n_) != 1 for n_ in names):
+                continue
+            if isinstance(st.value, (ast.Tuple, ast.List)):
+                if len(st.value.elts) == len(names) and not any(isinstance(x, ast.Starred) for x in st.value.elts):
+                    for n_, v_ in zip(names, st.value.elts):
+                        out[n_] = v_
+                continue
+            for k_, n_ in enumerate(names):
+                sub_ = ast.Subscript(value=st.value, slice=ast.Constant(value=k_), ctx=ast.Load())
+                ast.copy_location(sub_, st.value)
+                ast.fix_missing_locations(sub_)
+                out[n_] = sub_
     return out
 
 
@@ -1040,19 +1416,110 @@ def local_kwtables(fn):
         if items is None or not all(_kw_value_ok(val, stores) for _k, val in items):
             continue
         # the table is only ever unpacked: any other use (subscript store, method call, argument) may modify it
-        uses_ok = True
-        for n in ast.walk(fn):
-            if isinstance(n, ast.Name) and n.id == nm and isinstance(n.ctx, ast.Load):
-                p_ = parent(n)
-                if isinstance(p_, ast.keyword) and p_.arg is None and p_.value is n:
-                    continue
-                if isinstance(p_, ast.Dict) and any(k_ is None and val is n for k_, val in zip(p_.keys, p_.values)):
-                    continue
-                if isinstance(p_, ast.Call) and src(p_.func) == "dict" and p_.args and p_.args[0] is n:
-                    continue
-                uses_ok = False
-        if uses_ok:
+        if _only_unpacked(fn, nm):
             out[nm] = items
+    return out
+
+
+def _only_unpacked(fn, nm):
+    """every read of the local `nm` is `**nm` in a call or the base of a later table"""
+    for n in ast.walk(fn):
+        if isinstance(n, ast.Name) and n.id == nm and isinstance(n.ctx, ast.Load):
+            p_ = parent(n)
+            if isinstance(p_, ast.keyword) and p_.arg is None and p_.value is n:
+                continue
+            if isinstance(p_, ast.Dict) and any(k_ is None and val is n for k_, val in zip(p_.keys, p_.values)):
+                continue
+            if isinstance(p_, ast.Call) and src(p_.func) == "dict" and p_.args and p_.args[0] is n:
+                continue
+            return False
+    return True
+
+
+def _arm_bindings(arm, fn_stores, tables):
+    """the simple bindings `name = value` made at the top level of one arm of a selection -> {name: value node} for
+    names bound once in the arm"""
+    out, n = {}, {}
+    for st in arm:
+        for x in ast.walk(st):
+            if isinstance(x, ast.Name) and isinstance(x.ctx, ast.Store):
+                n[x.id] = n.get(x.id, 0) + 1
+    for st in arm:
+        if isinstance(st, ast.Assign) and len(st.targets) == 1 and isinstance(st.targets[0], ast.Name) \
+                and n.get(st.targets[0].id) == 1:
+            out[st.targets[0].id] = st.value
+    return out
+
+
+def selected_kernel_calls(fn, knames):
+    """the kernel calls of `fn`, found by what is called and not by how the call is written:
+      K(...)                                                       a direct call
+      if c: g = K1 [; t = {...}] else: g = K2 [; t = {...}] ... g(..., **t)    one call through a local name that an
+                                                                   if/else (or `g = K1 if c else K2`) binds to a kernel
+    -> [(kernel name, call node, {local: value node bound on the selecting arm})]; a call through a name whose binding is
+    not of that form is returned with kernel name None (its target is not decided)."""
+    out = []
+    stores = {}
+    for n in ast.walk(fn):
+        if isinstance(n, ast.Name) and isinstance(n.ctx, ast.Store):
+            stores[n.id] = stores.get(n.id, 0) + 1
+    # local names that some statement binds to a kernel
+    sel = {}
+    for n in ast.walk(fn):
+        if isinstance(n, ast.Assign) and len(n.targets) == 1 and isinstance(n.targets[0], ast.Name):
+            v = n.value
+            if isinstance(v, ast.Name) and v.id in knames:
+                sel.setdefault(n.targets[0].id, []).append(n)
+            elif isinstance(v, ast.IfExp) and all(isinstance(x, ast.Name) and x.id in knames for x in (v.body, v.orelse)):
+                sel.setdefault(n.targets[0].id, []).append(n)
+    for c in ast.walk(fn):
+        if not (isinstance(c, ast.Call) and isinstance(c.func, ast.Name)):
+            continue
+        if c.func.id in knames:
+            out.append((c.func.id, c, {}))
+            continue
+        g = c.func.id
+        if g not in sel:
+            continue
+        defs = sel[g]
+        if stores.get(g) != len(defs):
+            out.append((None, c, {}))            # also bound to something that is not a kernel
+            continue
+        if len(defs) == 1 and isinstance(defs[0].value, ast.IfExp) and any(defs[0] is st for st in fn.body) \
+                and defs[0].lineno < c.lineno:
+            for k_ in (defs[0].value.body, defs[0].value.orelse):
+                out.append((k_.id, c, {}))
+            continue
+        # every binding stands at the top level of an arm of ONE top-level if/elif/else that precedes the call and
+        # that has an else: each arm is one case
+        top = [st for st in fn.body if isinstance(st, ast.If) and any(d is x for d in defs for x in ast.walk(st))]
+        if len(top) != 1 or top[0].lineno >= c.lineno or any(c is x for x in ast.walk(top[0])) \
+                or not any(c is x for st in fn.body for x in ast.walk(st) if not isinstance(st, (ast.If, ast.For, ast.While))):
+            out.append((None, c, {}))
+            continue
+        arms, node = [], top[0]
+        while True:
+            arms.append(node.body)
+            if len(node.orelse) == 1 and isinstance(node.orelse[0], ast.If):
+                node = node.orelse[0]
+                continue
+            arms.append(node.orelse)
+            break
+        cases = []
+        for arm in arms:
+            ab = _arm_bindings(arm, stores, None)
+            if g not in ab or not (isinstance(ab[g], ast.Name) and ab[g].id in knames):
+                cases = None
+                break
+            cases.append((ab[g].id, ab))
+        if not cases:
+            out.append((None, c, {}))
+            continue
+        for kname, ab in cases:
+            # a name bound on the arms is usable at the call when every arm binds it (once) and nothing else does
+            usable = {k_: v_ for k_, v_ in ab.items() if k_ != g and stores.get(k_) == len(arms)
+                      and all(k_ in ab2 for _kn, ab2 in cases)}
+            out.append((kname, c, usable))
     return out
 
 
@@ -1161,11 +1628,28 @@ def _alloc_seq(v):
         for a_ in (v.left, v.right):
             if isinstance(a_, (ast.List, ast.Tuple)) and a_.elts and all(_alloc_call(x) for x in a_.elts):
                 return "repeat"
+    # tables keyed by name: one allocation per key / one allocation for all keys
+    if isinstance(v, ast.DictComp) and _alloc_call(v.value):
+        return "each"
+    if isinstance(v, ast.Dict) and v.values and all(k_ is not None for k_ in v.keys) and all(_alloc_call(x) for x in v.values):
+        return "each"
+    if isinstance(v, ast.Call) and src(v.func) == "dict.fromkeys" and len(v.args) == 2 and _alloc_call(v.args[1]):
+        return "repeat"
+    # a record built from separate allocations: dict(a=alloc, ...), Record(alloc, alloc, ...), Record(a=alloc, ...)
+    if isinstance(v, ast.Call) and not _alloc_call(v) and len(v.args) + len(v.keywords) >= 2 \
+            and all(_alloc_call(x) for x in v.args) and all(k_.arg is not None and _alloc_call(k_.value) for k_ in v.keywords):
+        return "each"
+    if isinstance(v, ast.Call) and not _alloc_call(v) and len(v.args) == 1 and not v.keywords \
+            and isinstance(v.args[0], ast.Starred) and _alloc_seq(v.args[0].value) == "each" \
+            and not isinstance(v.args[0].value, (ast.DictComp, ast.Dict)):
+        return "each"                  # Record(*[alloc for ...])
     return None
 
 
 def _const_index(sl):
     sl = sl.elts[0] if isinstance(sl, ast.Tuple) and sl.elts else sl
+    if isinstance(sl, ast.Constant) and isinstance(sl.value, str):
+        return sl.value                # entry of a table keyed by name
     if isinstance(sl, ast.UnaryOp) and isinstance(sl.op, ast.USub) and isinstance(sl.operand, ast.Constant) \
             and isinstance(sl.operand.value, int):
         return -sl.operand.value
@@ -1192,6 +1676,8 @@ def work_array_storage(chk, cls, actuals):
             return ("view", base, k_, where_) if k_ is not None else ("unknown", src(v), where_)
         if isinstance(v, ast.Attribute) and src(v.value) == "self":
             return ("alias", src(v), where_)
+        if isinstance(v, ast.Attribute) and isinstance(v.value, ast.Attribute) and src(v.value.value) == "self":
+            return ("view", src(v.value), "." + v.attr, where_)        # a field of a record kept by the object
         return ("unknown", src(v), where_)
 
     for m in [st for st in cls.body if isinstance(st, ast.FunctionDef)]:
@@ -1223,8 +1709,9 @@ def work_array_storage(chk, cls, actuals):
         if e in desc:
             continue
         node = actuals[e][0]
-        if isinstance(node, ast.Subscript) or _alloc_call(node):
-            desc[e] = [(describe(node, "step"), node)]     # `self._work[3]`, or an array allocated for the call
+        if isinstance(node, ast.Subscript) or _alloc_call(node) or \
+                (isinstance(node, ast.Attribute) and isinstance(node.value, ast.Attribute) and src(node.value.value) == "self"):
+            desc[e] = [(describe(node, "step"), node)]     # `self._work[3]`, `self._work.x`, or an array allocated for the call
 
     def base_fresh(key):
         return key.startswith("alloc@") or (len(allocs.get(key, [])) == 1 and allocs[key][0] is not None)
@@ -1257,6 +1744,13 @@ def work_array_storage(chk, cls, actuals):
                                     return "same"      # every entry of `[a] * n` is the one array a
                                 if x[2] == y[2]:
                                     return "same"
+                                if isinstance(x[2], str) or isinstance(y[2], str):
+                                    # entries of a table / fields of a record under different names
+                                    if isinstance(x[2], str) and isinstance(y[2], str) and seqs.get(x[1]) == "each" \
+                                            and base_fresh(x[1]):
+                                        continue
+                                    res = None
+                                    continue
                                 if x[2] >= 0 and y[2] >= 0 and base_fresh(x[1]):
                                     continue
                                 res = None
@@ -1541,17 +2035,40 @@ def call_site_roles(chk):
     prov = ctor_provenance(cls)
     const_recv = next((a_ for a_, p_ in prov.items() if p_ == "constants"), "self._constants")
     kernel_calls, bound = [], []
-    for kname in ("poloidal_advection_step_expl", "poloidal_advection_step_impl"):
-        calls = [c for c in ast.walk(fn) if isinstance(c, ast.Call) and isinstance(c.func, ast.Name) and c.func.id == kname]
+    knames = ("poloidal_advection_step_expl", "poloidal_advection_step_impl")
+    sites = selected_kernel_calls(fn, knames)
+    stores_ = {}
+    for n in ast.walk(fn):
+        if isinstance(n, ast.Name) and isinstance(n.ctx, ast.Store):
+            stores_[n.id] = stores_.get(n.id, 0) + 1
+    for kn_, c_, _ab in sites:
+        if kn_ is None:
+            kernel_calls.append(c_)
+            chk.ob("E2-arity", c_, f"{src(c_.func)}(...)", None,
+                   f"`{src(c_.func)}` is bound to a kernel somewhere in step(), but not by an if/else (with else) at the top of "
+                   "the function whose every arm binds it: which kernel this call reaches is not decided", **where)
+    for kname in knames:
+        calls = [(c, ab) for kn_, c, ab in sites if kn_ == kname]
         if len(calls) != 1:
             chk.ob("E2-arity", fn, f"{kname}(...)", None,
                    f"{len(calls)} calls of {kname} in PoloidalAdvection.step (one expected): not decided", **where)
-            kernel_calls += calls
+            kernel_calls += [c for c, _ab in calls]
             continue
-        c0 = calls[0]
+        c0, arm = calls[0]
         kernel_calls.append(c0)
         formals = [a.arg for a in kmod.func(kname).args.args]
-        c = resolved_call(c0, aliases, kwtables)
+        # bindings made on the arm that selected this kernel: keyword tables and aliases of that case
+        al2, kt2 = dict(aliases), dict(kwtables)
+        for nm_, v_ in arm.items():
+            if isinstance(v_, ast.Dict) or (isinstance(v_, ast.Call) and src(v_.func) == "dict"):
+                items = _kw_items(v_, kt2)
+                if items is not None and all(_kw_value_ok(val, stores_) for _k, val in items) and _only_unpacked(fn, nm_):
+                    kt2[nm_] = items
+            elif _pure_path(v_) and not any(stores_.get(x.id, 0) > 1 for x in ast.walk(v_) if isinstance(x, ast.Name)):
+                al2[nm_] = v_
+        c = resolved_call(c0, al2, kt2)
+        if c0.func.id != kname:
+            c.func = ast.copy_location(ast.Name(id=kname, ctx=ast.Load()), c0.func)
         if any(isinstance(a, ast.Starred) for a in c.args) or any(k.arg is None for k in c.keywords):
             chk.ob("E2-arity", c0, f"{kname}(...)", None,
                    "the argument list unpacks a sequence / keyword table that is not a local tuple / an unmodified local "
@@ -1620,6 +2137,13 @@ def call_site_roles(chk):
             if axis_of(a, axes) is not None:
                 chk.ob("E2-argument-role", c0, f"{kname}: {f} <- {s_}", False,
                        f"`{s_}` is the {axis_of(a, axes)[0]} axis of the grid and is bound to parameter `{f}`", **where)
+                continue
+            general = {"poloidal_advection_step_expl": EXPL, "poloidal_advection_step_impl": IMPL}.get(kname)
+            if Symbol(f, real=True) in _SCALAR_SUBST.get(general, {}):
+                chk.ob("E2-argument-role", c0, f"{kname}: {f} <- {s_}", True,
+                       f"the actual is the expression {_SCALAR_SUBST[general][Symbol(f, real=True)]} of the quantities of step(): the "
+                       "kernel formulas are compared with the specification with this value substituted for the parameter "
+                       "(rules F1-*)", **where)
                 continue
             if not (s_.startswith(const_recv + ".") or s_ in table or s_ in work_actuals):
                 chk.ob("E2-argument-role", c0, f"{kname}: {f} <- {s_}", None,
@@ -1736,6 +2260,226 @@ def _pass_counters(lp):
     return counters
 
 
+class _Delegating:
+    """view of the check handed to the index-space analysis of gridStep / gridStep_SplinesUnchanged (props/C05.poloidal).
+    That analysis reports 'no call of self.step found' for a method without one.  When the method has handed its stepping
+    loop to a sibling method - an unconditional `self.<sibling>(...)` at the top level of its body whose arguments are its
+    own parameters, unchanged - the step calls it makes ARE those of the sibling, which the same analysis decides under the
+    sibling's own layout assertions: the obligation is then stated on the pair caller + callee."""
+
+    def __init__(self, chk, cls):
+        self._chk, self._cls = chk, cls
+
+    def __getattr__(self, k):
+        return getattr(self._chk, k)
+
+    def _delegate(self, fn):
+        methods = {st.name: st for st in self._cls.body if isinstance(st, ast.FunctionDef)}
+        params = [a.arg for a in fn.args.args][1:]
+        rebound = {n.id for n in ast.walk(fn) if isinstance(n, ast.Name) and isinstance(n.ctx, ast.Store)}
+        for st in fn.body:
+            c = st.value if isinstance(st, ast.Expr) else None
+            if not (isinstance(c, ast.Call) and isinstance(c.func, ast.Attribute) and src(c.func.value) == "self"
+                    and c.func.attr in methods and c.func.attr != fn.name):
+                continue
+            callee = methods[c.func.attr]
+            b = agree.bind_call(c, [a.arg for a in callee.args.args][1:])
+            if b is None or not all(isinstance(a, ast.Name) and a.id in params and a.id not in rebound for a in b.values()):
+                continue
+            if len({a.id for a in b.values()}) != len(b):
+                continue
+            has_step = any(isinstance(x, ast.Call) and isinstance(x.func, ast.Attribute) and x.func.attr == "step"
+                           and src(x.func.value) == "self" for x in ast.walk(callee))
+            # the same role on both sides: a parameter is handed to the parameter of the same name
+            if has_step and all(f == a.id for f, a in b.items()):
+                return c, callee
+        return None
+
+    def ob(self, rule, node, construct, ok, msg="", **kw):
+        if rule == "C-coordinate-role" and ok is None and isinstance(node, ast.FunctionDef):
+            d = self._delegate(node)
+            if d is not None:
+                c, callee = d
+                return self._chk.ob(rule, c, f"{node.name}: stepping loop handed to self.{callee.name}(...)", True,
+                                    f"{node.name} makes no call of self.step itself: it ends with `{src(c)}`, which hands its own "
+                                    f"parameters on unchanged; the calls of self.step it makes are those of {callee.name}, decided "
+                                    "there", **kw)
+        return self._chk.ob(rule, node, construct, ok, msg, **kw)
+
+
+def dispatch_by_cases(chk, mod, w, g, flag="cubic_uniform_splines"):
+    """the dispatch wrapper written in any other way than `if flag: general(...) else: general(...)`: the wrapper is followed
+    once for each value of its boolean parameter `flag` (arms of `if flag`, `a if flag else b`, `{True: a, False: b}[flag]`
+    selected; locals, tuples and unpacked sequences resolved) up to its call of the general routine, and the two bindings
+    are compared: every parameter other than an evaluator receives the wrapper's parameter of the same name on both
+    paths, every evaluator parameter X receives cu_X when the flag is set and nu_X when it is not."""
+    wf, gf = mod.func(w), mod.func(g)
+    chk.functions.add(f"{U.ADVK}:{w}")
+    where = dict(file=U.ADVK, func=w)
+    gformals = [a.arg for a in gf.args.args]
+    wparams = [a.arg for a in wf.args.args]
+    what = f"{w} -> {g}"
+    if flag not in wparams:
+        chk.ob("E1-dispatch", wf, what, None, f"the wrapper has no parameter `{flag}`: which path is the fast one is not decided", **where)
+        return
+
+    def truth(e, b):
+        if isinstance(e, ast.Name) and e.id == flag:
+            return b
+        if isinstance(e, ast.UnaryOp) and isinstance(e.op, ast.Not):
+            t = truth(e.operand, b)
+            return None if t is None else not t
+        if isinstance(e, ast.Compare) and len(e.ops) == 1 and isinstance(e.ops[0], (ast.Is, ast.Eq, ast.IsNot, ast.NotEq)) \
+                and isinstance(e.left, ast.Name) and e.left.id == flag and isinstance(e.comparators[0], ast.Constant) \
+                and isinstance(e.comparators[0].value, bool):
+            t = b == e.comparators[0].value
+            return t if isinstance(e.ops[0], (ast.Is, ast.Eq)) else not t
+        return None
+
+    def val(e, b, env, depth=0):
+        if depth > 8:
+            raise Undecided("nesting")
+        if isinstance(e, ast.Name) and e.id in env:
+            return env[e.id]
+        if isinstance(e, ast.IfExp):
+            t = truth(e.test, b)
+            if t is None:
+                raise Undecided(f"condition `{src(e.test)}`")
+            return val(e.body if t else e.orelse, b, env, depth + 1)
+        if isinstance(e, (ast.Tuple, ast.List)):
+            return tuple(val(x, b, env, depth + 1) for x in e.elts)
+        if isinstance(e, ast.Subscript):
+            if isinstance(e.value, ast.Dict) and truth(e.slice, b) is not None:
+                t = truth(e.slice, b)
+                for k_, v_ in zip(e.value.keys, e.value.values):
+                    if isinstance(k_, ast.Constant) and isinstance(k_.value, (bool, int)) and bool(k_.value) == t \
+                            and k_.value in (True, False, 0, 1):
+                        return val(v_, b, env, depth + 1)
+                raise Undecided(f"table `{src(e.value)[:40]}` has no entry for {t}")
+            base = val(e.value, b, env, depth + 1)
+            if isinstance(base, tuple):
+                k_ = _const_index(e.slice)
+                if isinstance(k_, int) and -len(base) <= k_ < len(base):
+                    return base[k_]
+                t = truth(e.slice, b)
+                if t is not None and len(base) == 2:
+                    return base[int(t)]                 # (general, fast)[flag]
+            raise Undecided(f"subscript `{src(e)[:40]}`")
+        return e
+
+    def follow(stmts, b, env, calls):
+        for st in stmts:
+            if isinstance(st, ast.Expr) and isinstance(st.value, ast.Constant):
+                continue
+            if isinstance(st, (ast.Import, ast.ImportFrom, ast.Pass)):
+                continue
+            if isinstance(st, ast.If):
+                t = truth(st.test, b)
+                if t is None:
+                    raise Undecided(f"condition `{src(st.test)}`")
+                if follow(st.body if t else st.orelse, b, env, calls):
+                    return True
+                continue
+            if isinstance(st, ast.Assign) and len(st.targets) == 1:
+                t, v = st.targets[0], val(st.value, b, env)
+                if isinstance(t, ast.Name):
+                    env[t.id] = v
+                    continue
+                if isinstance(t, (ast.Tuple, ast.List)) and isinstance(v, tuple) and len(v) == len(t.elts) \
+                        and all(isinstance(x, ast.Name) for x in t.elts):
+                    for x, y in zip(t.elts, v):
+                        env[x.id] = y
+                    continue
+                raise Undecided(f"assignment `{src(st)[:50]}`")
+            c = st.value if isinstance(st, (ast.Expr, ast.Return)) else None
+            if isinstance(c, ast.Call) and isinstance(c.func, ast.Name):
+                callee = val(c.func, b, env)
+                if isinstance(callee, ast.Name) and callee.id == g:
+                    args = []
+                    for a in c.args:
+                        if isinstance(a, ast.Starred):
+                            v = val(a.value, b, env)
+                            if not isinstance(v, tuple):
+                                raise Undecided(f"`*{src(a.value)}`")
+                            args += list(v)
+                        else:
+                            args.append(val(a, b, env))
+                    kws = {}
+                    for k_ in c.keywords:
+                        if k_.arg is None:
+                            raise Undecided(f"`**{src(k_.value)}`")
+                        kws[k_.arg] = val(k_.value, b, env)
+                    if any(isinstance(x, tuple) for x in args + list(kws.values())):
+                        raise Undecided("a sequence is handed on as one argument")
+                    calls.append((c, args, kws))
+                    if isinstance(st, ast.Return):
+                        return True
+                    continue
+            if isinstance(st, ast.Return) and st.value is None:
+                return True
+            raise Undecided(f"statement `{src(st)[:50]}`")
+        return False
+    got = {}
+    try:
+        for b in (True, False):
+            calls = []
+            follow(wf.body, b, {}, calls)
+            if len(calls) != 1:
+                chk.ob("E1-dispatch", wf, what, None if calls else False,
+                       f"{len(calls)} calls of {g} on the path with {flag} = {b}: not decided" if calls else
+                       f"with {flag} = {b} the wrapper returns without calling {g}: no advection is done for that family of splines",
+                       **where)
+                return
+            c, args, kws = calls[0]
+            if len(args) > len(gformals) or any(k_ not in gformals or k_ in gformals[:len(args)] for k_ in kws) \
+                    or len(args) + len(kws) != len(gformals):
+                chk.ob("E1-dispatch", c, what, False,
+                       f"with {flag} = {b} the argument list ({len(args)} positional, keywords {sorted(kws)}) does not fit the "
+                       f"{len(gformals)} parameters of {g}: the call raises TypeError", **where)
+                return
+            bind = dict(zip(gformals, args))
+            bind.update(kws)
+            got[b] = (c, bind)
+    except Undecided as e:
+        chk.ob("E1-dispatch", wf, what, None, f"the wrapper could not be followed for each value of `{flag}` ({e}): agreement of the "
+               "two paths is not decided", **where)
+        return
+    bad, und = [], []
+    for f in gformals:
+        at, af = src(got[True][1][f]), src(got[False][1][f])
+        if at == af:
+            if at == f and f in wparams:
+                continue
+            if at in wparams:
+                bad.append(f"the wrapper's `{at}` is handed to parameter `{f}` of {g}")
+            else:
+                und.append(f"`{f}` receives `{at}` on both paths, which is not the wrapper's parameter of that name")
+            continue
+        (pt, st_), (pf, sf) = _stem_of(at), _stem_of(af)
+        if (pt, pf) == ("cu_", "nu_") and st_ == sf == f:
+            continue
+        if (pt, pf) == ("nu_", "cu_") and st_ == sf == f:
+            bad.append(f"`{f}` receives `{at}` when `{flag}` is set and `{af}` when it is not: the fast evaluators, which assume a "
+                       "cubic uniform basis, are used exactly when the basis is NOT cubic uniform")
+        elif pt in ("cu_", "nu_") and pf in ("cu_", "nu_") and (st_ != f or sf != f):
+            bad.append(f"`{f}` receives `{at}` / `{af}`: not the cu_/nu_ pair of the evaluator `{f}`")
+        elif pt == pf and pt in ("cu_", "nu_"):
+            bad.append(f"`{f}` receives `{at}` / `{af}`: the same family on both paths, the flag does not select the evaluator")
+        else:
+            und.append(f"`{f}` receives `{at}` / `{af}`")
+    chk.ob("E1-dispatch", got[True][0], what, False if bad else (None if und else True),
+           "; ".join(bad + und) if bad or und else
+           f"followed for both values of `{flag}`: both families get the wrapper's own arguments under the same names; every "
+           "evaluator parameter gets the cu_/nu_ pair of its own stem; the fast path is taken iff the basis is cubic uniform", **where)
+
+
+def _stem_of(name):
+    for p_ in ("cu_", "nu_"):
+        if name.startswith(p_):
+            return p_, name[len(p_):]
+    return None, name
+
+
 def run(chk):
     chk.explanation = (
         "Formula conformance by symbolic forward substitution (engine F): predictor, Heun corrector, boundary fill of "
@@ -1746,8 +2490,21 @@ def run(chk):
         "a mismatch is matched against named wrong variants to diagnose it (among them: angle reduced by one conditional "
         "shift of a period instead of modulo 2 pi). The fixed-point loop is brought to while form first (`while True` / "
         "`for _ in range(N)` left by a break as first or last statement; a conjunct on a pass counter is a bound). Every "
-        "sweep visits all nodes; the measure is reset in each pass. Plus fast-path/general-path dispatch agreement and the "
-        "kernel call sites of PoloidalAdvection.step, decided RELATIONALLY from the class itself (local aliases, unpacked "
+        "sweep visits all nodes; the measure is reset in each pass. Before extraction the kernels are normalised: helper "
+        "functions of the kernel module are analysed with their caller (call replaced by the body, arguments substituted), "
+        "early exits of a sweep (`continue`) are written as if/else, counting loops are brought to the 0-based ascending "
+        "convention (`range(1, n+1)` with `i-1`, descending ranges), numpy.mod/remainder are the operator %, fmod is not; a "
+        "scalar parameter whose actual in PoloidalAdvection.step is an expression of step()'s quantities (dt/B0 computed "
+        "by the caller) has that value in the kernel, so caller and callee are compared with the specification as a pair. "
+        "The fixed-point pass is analysed from a generic iterate, whose angle is taken as reduced modulo 2 pi when that is an "
+        "invariant of the loop (initial iterate reduced, every pass leaves a reduced angle); the measure must be the "
+        "distance between the old iterate and the iterate the next pass starts from (a measure taken on another stored "
+        "copy of the point that differs from it, e.g. unclipped vs clipped, is reported as a non-termination of its own). "
+        "Plus fast-path/general-path dispatch agreement (any other form than the if/else of two calls is followed once per "
+        "value of the flag through locals, conditional expressions, tables keyed by the flag and unpacked tuples) and the "
+        "kernel call sites of PoloidalAdvection.step (found by what is called: direct calls, or one call through a local "
+        "name that an if/else binds to the two kernels, each arm's bindings applied), decided RELATIONALLY from the class "
+        "itself (local aliases incl. unpacked sequences, unpacked "
         "local tuples and unmodified local keyword tables resolved): the actuals of rPts/qPts are the r/theta axis according "
         "to the constructor's selection from eta_vals; the parts of the distribution spline all come from one spline object, "
         "which is the one f is interpolated into before the call; attributes that keep a constructor argument have its role; "
@@ -1765,6 +2522,10 @@ def run(chk):
     chk.trusted.append("sympy expand/together as polynomial normaliser")
     mod = chk.mod(U.ADVK)
     chk.in_file(U.ADVK)
+    try:
+        kernel_scalar_actuals(chk)
+    except Exception:                     # a call site that cannot be followed composes nothing
+        _SCALAR_SUBST.clear()
     check_explicit(chk, mod)
     check_implicit(chk, mod)
     iteration_bound(chk, mod)
@@ -1778,15 +2539,13 @@ def run(chk):
             len(a) == 1 and isinstance(a[0], ast.Expr) and isinstance(a[0].value, ast.Call) and not a[0].value.keywords
             and not any(isinstance(x, ast.Starred) for x in a[0].value.args) for a in arms)
         if not plain:
-            chk.ob("E1-dispatch", wf, f"{w} -> {g}", None,
-                   "the wrapper is not a single `if flag: general(...) else: general(...)` with positional arguments: "
-                   "agreement of the two paths is not decided", file=U.ADVK, func=w)
+            dispatch_by_cases(chk, mod, w, g)
             continue
         agree.check_wrapper_dispatch(chk, mod, w, g)
     call_site_roles(chk)
     # per-z potential splines (state anchor of the property): distinct objects, consistent index space, own plane/velocity
     from .C05 import poloidal
-    poloidal(chk)
+    poloidal(_Delegating(chk, chk.mod(U.ADV).cls("PoloidalAdvection")))
     from .. import lints as _l
     _l.check_cache_keys(chk, U.ADV, "PoloidalAdvection")
     chk.floor("F1-", 8)
